@@ -181,14 +181,13 @@ Definition fs_params (p : path) : list param :=
   match wildcards p with n :: _ => [mkp n InPath true false] | [] => [] end.
 Definition fs_stat (p : path) : list N := match wildcards p with _ :: _ => [200; 404] | [] => [200] end.
 
-(* the assignments performed while the paths map is built, in order; the key of an
-   endpoint route is rewritten, v3 keeps the request path of a file server as it is,
-   v2 rewrites it *)
+(* the assignments performed while the paths map is built, in order; every key (endpoint
+   route or file server request path, v3 and v2) is rewritten {*name} -> {name} *)
 Definition ep_doc (f : endpoint -> path -> opd) (e : endpoint) : list (path * verb * opd) :=
   map (fun vp => (norm (snd vp), fst vp, f e (norm (snd vp)))) (ep_entries e).
 
 Definition fs_doc3 (reqs : list (list N)) (p : path) : path * verb * opd :=
-  (p, GET, mkopd (fs_params p) false (fs_stat p) reqs).
+  (norm p, GET, mkopd (fs_params p) false (fs_stat p) reqs).
 Definition fs_doc2 (p : path) : path * verb * opd :=
   (norm p, GET, mkopd (fs_params p) false (fs_stat p) []).
 
